@@ -51,8 +51,9 @@ structure AuthzBody where
   challenges : List (ChalType × Nat)
   deriving DecidableEq, Repr, Inhabited
 
-/-- Class of a downloaded certificate body: parses as a chain with leaf key `k`, or does not parse
-(`X509Certificate::from_pem`, `acme_proto.rs:289`). -/
+/-- Class of a downloaded certificate body: EVERY block of it parses as a certificate and the
+first one (the leaf) carries key `k`, or some block does not parse (`X509Certificate::chain_from_pem`
+since c2b9c05, `acme_proto.rs:289`; before, only the first block was looked at). -/
 inductive CertBody | chainFor (k : KeyId) | unparseable
   deriving DecidableEq, Repr, Inhabited
 
